@@ -89,6 +89,15 @@ def _impl(tier, seed, search):
             Rs = [mkR() for _ in range(M)]
             ok, r = L.noraise(f'SO{d}[M]*p', lambda: SOc(Rs, check=False) * p, dict(dim=d, M=M, p=p), f'{M}-valued SO{d} * point')
             if ok: L.close(f'SO{d}[M]*p', r, np.stack([Rk @ p for Rk in Rs], axis=1), TOL, float(np.max(np.abs(p))), dict(dim=d, M=M, p=p, Rs=Rs))
+        # translations of 1e-9 .. 1e-8 acting on micrometre-sized points: one point (every form) and the same point as a column of a d x N call
+        tt6 = g.normal(size=3) * 10.0 ** g.uniform(-9, -8); pp6 = g.normal(size=3) * 10.0 ** g.uniform(-6.5, -5.5); R6 = inputs.so3(g); T6s = np.eye(4); T6s[:3, :3] = R6; T6s[:3, 3] = tt6
+        want66 = R6 @ pp6 + tt6; X6s = SE3(T6s, check=False)
+        for fm_, pf_ in (('list', list(pp6)), ('tuple', tuple(pp6)), ('array', pp6), ('column', pp6.reshape(3, 1)), ('3xN', np.stack([pp6, 2 * pp6], axis=1))):
+            ok, r = L.noraise(f'SE3(small t)*p[{fm_}]', lambda: np.asarray(X6s * pf_, float), dict(T=T6s, p=pp6, form=fm_), 'SE3 with a tiny translation times a small point')
+            if ok: L.close(f'SE3(small t)*p[{fm_}]', r.reshape(3, -1)[:, 0], want66, TOL, float(np.max(np.abs(pp6))), dict(T=T6s, p=pp6, form=fm_), what='a translation of order 1e-9 is lost when a single small point is transformed', sig='small-translation')
+        T62 = np.eye(3); T62[:2, :2] = inputs.so2(g); T62[:2, 2] = tt6[:2]
+        ok, r = L.noraise('SE2(small t)*p', lambda: np.asarray(SE2(T62, check=False) * list(pp6[:2]), float).flatten(), dict(T=T62, p=pp6[:2]), 'SE2 with a tiny translation times a small point')
+        if ok: L.close('SE2(small t)*p', r, T62[:2, :2] @ pp6[:2] + tt6[:2], TOL, float(np.max(np.abs(pp6))), dict(T=T62, p=pp6[:2]), sig='small-translation')
         # small-scale data: micrometre-sized points under rotations by tiny angles (an image coordinate of order 1e-14 is still data, relative to 1e-6)
         sc6 = 10.0 ** g.uniform(-7, -5); ang6 = 10.0 ** g.uniform(-9, -7) * float(g.choice([-1, 1]))
         p6 = np.array([sc6, 0.0, sc6]); want6 = np.array([sc6 * math.cos(ang6), sc6 * math.sin(ang6), sc6])
